@@ -241,10 +241,14 @@ pub fn gen(ops: &mut Vec<String>, seed: u64, thorough: bool) {
         let faulty = case % 3 == 2;
         let mut specs = vec![];
         let mut napps_v = vec![];
+        // consistent bus parameters (what C01/C13 quantify over) in two thirds of the cases: one TTR for the ring
+        let ring_ttr = *rng.pick(&[3000u32, 20_000, 100_000]);
+        let same_ttr = case % 3 != 0;
         for a in &addrs {
             let napps = rng.below(3);
             napps_v.push(napps as usize);
-            specs.push(format!("{}:{}:{}:{}:{}", a, *rng.pick(&[3000u32, 20_000, 100_000]), *rng.pick(&[1u8, 2, 5]), 1 + rng.below(2), napps));
+            let own_ttr = *rng.pick(&[3000u32, 20_000, 100_000]);
+            specs.push(format!("{}:{}:{}:{}:{}", a, if same_ttr { ring_ttr } else { own_ttr }, *rng.pick(&[1u8, 2, 5]), 1 + rng.below(2), napps));
         }
         let line = format!("net.new {rate} {slot} {hsa} {n} {}", specs.join(" "));
         ops.push(line.clone());
